@@ -696,7 +696,62 @@ fn run_depth(args: &Args, ev: &mut Ev) -> Vec<Violation> {
     viol
 }
 
+/// the gate through every parse entry point: the same verdict whichever way the bytes reach walrus
+const ENTRIES: [&str; 6] = ["parse", "parse_file", "from_buffer_with_config", "from_file_with_config", "from_buffer", "from_file"];
+
+fn judge_entry(args: &Args, c: &Case) -> Vec<Violation> {
+    let entry = c.cfg["entry"].as_str().unwrap_or("parse").to_string();
+    let stable = c.cfg["stable"].as_bool().unwrap_or(false);
+    let uses_cfg = !matches!(entry.as_str(), "from_buffer" | "from_file");
+    let fs = if stable && uses_cfg { FeatureSet::STABLE } else { FeatureSet::DEFAULT };
+    let reference = validate214(&c.wasm, fs);
+    let dir = args.verif.join("work").join("c05");
+    let _ = std::fs::create_dir_all(&dir);
+    static SERIAL: std::sync::atomic::AtomicUsize = std::sync::atomic::AtomicUsize::new(0);
+    let path = dir.join(format!("entry-{}-{}.wasm", std::process::id(), SERIAL.fetch_add(1, std::sync::atomic::Ordering::SeqCst)));
+    if entry.contains("file") && std::fs::write(&path, &c.wasm).is_err() {
+        return vec![];
+    }
+    let mut wc = walrus::ModuleConfig::new();
+    wc.only_stable_features(stable);
+    let got = std::panic::catch_unwind(std::panic::AssertUnwindSafe(|| {
+        match entry.as_str() {
+            "parse" => wc.parse(&c.wasm),
+            "parse_file" => wc.parse_file(&path),
+            "from_buffer_with_config" => walrus::Module::from_buffer_with_config(&c.wasm, &wc),
+            "from_file_with_config" => walrus::Module::from_file_with_config(&path, &wc),
+            "from_buffer" => walrus::Module::from_buffer(&c.wasm),
+            _ => walrus::Module::from_file(&path),
+        }
+        .map(|_| ())
+        .map_err(|e| format!("{:#}", e))
+    }));
+    let _ = std::fs::remove_file(&path);
+    let cname = if stable && uses_cfg { "only-stable" } else { "default" };
+    match (got, reference) {
+        (Ok(Ok(())), Err(e)) => vec![Violation::new("C05", format!("accepts-invalid:{}:via-{}:{}", cname, entry, crate::props::validity::norm_verr(&e)), format!("{} ({}) accepts bytes the reference validator rejects: {}", entry, cname, e), c)],
+        (Ok(Err(e)), Ok(())) => vec![Violation::new("C05", format!("rejects-valid:{}:via-{}:{}", cname, entry, crate::props::validity::norm_verr(&e)), format!("{} ({}) rejects a module the reference validator accepts: {}", entry, cname, e), c)],
+        (Err(p), _) => vec![Violation::new("C05", format!("parse-panic:via-{}:{}", entry, norm_panic(&panic_msg(p))), format!("{} ({}) panicked", entry, cname), c)],
+        _ => vec![],
+    }
+}
+
+fn entry_cases() -> Vec<Case> {
+    let mut out = vec![];
+    for m in wgen::families::minimal_family() {
+        for entry in ENTRIES {
+            for stable in [false, true] {
+                out.push(Case { family: "entry-points".into(), coords: format!("{} via {} stable={}", m.coords, entry, stable), wasm: m.wasm.clone(), cfg: json!({"entry": entry, "stable": stable}) });
+            }
+        }
+    }
+    out
+}
+
 fn recheck(args: &Args, c: &Case) -> Vec<Violation> {
+    if c.cfg.get("entry").is_some() {
+        return judge_entry(args, c);
+    }
     if c.cfg.get("depth_family").is_some() {
         let fam = depth_family(Tier::Thorough);
         if let Some((_, bytes)) = fam.iter().find(|(n, _)| *n == c.coords) {
@@ -803,6 +858,20 @@ pub fn run(args: &Args) -> i32 {
     ev.states = judged;
     ev.nontrivial = accepted.max(2);
     viol.extend(run_depth(args, &mut ev));
+    {
+        let ec = entry_cases();
+        let (res, _) = pmap(&ec, nw, None, |c| judge_entry(args, c));
+        let mut rejected_stable = 0u64;
+        for (c, r) in ec.iter().zip(res.into_iter()) {
+            if c.cfg["stable"].as_bool() == Some(true) && validate214(&c.wasm, FeatureSet::STABLE).is_err() {
+                rejected_stable += 1;
+            }
+            viol.extend(r.unwrap_or_default());
+        }
+        ev.evaluations += ec.len() as u64;
+        ev.transitions += ec.len() as u64;
+        ev.extra.insert("entry_points".into(), json!({"entries": ENTRIES, "cases": ec.len(), "cases_the_stable_set_must_reject": rejected_stable}));
+    }
     ev.extra.insert("zero_deviation_corpus".into(), json!(sp.plain.len()));
     ev.extra.insert("inputs".into(), json!({"enumerated_slots": total, "judged": judged, "no_op_slots_skipped": skipped, "accepted_by_walrus_default": accepted, "seeds": sp.seeds.len()}));
     for i in [0usize, total / 3, total - 1] {
@@ -815,7 +884,7 @@ pub fn run(args: &Args) -> i32 {
          of every generated family incl. the whole operator census; 1 deviation = \
          every prefix, every position x every value of the byte set ({} values per position), every single deletion, every single insertion (8 values quick / 256 thorough), every byte < 0x80 re-encoded as a padded two-byte LEB, every byte replaced by a five-byte LEB of a huge value (3 values); all byte strings header+w with |w| <= {}; {}plus a depth/size family \
          (nesting up to 10^{}, br_table arity, locals, function count, body size at LEB boundaries and validator limits) with each member parsed in a process of its own. Each input is parsed under the default \
-         and the only-stable configuration in worker subprocesses. Oracle: no panic / crash / hang; accept <=> stand-alone wasmparser 0.214 with the feature set written down from the documentation. \
+         and the only-stable configuration in worker subprocesses. The minimal members are also submitted through each of the six parse entry points (parse, parse_file, from_buffer[_with_config], from_file[_with_config]) under both configurations. Oracle: no panic / crash / hang; accept <=> stand-alone wasmparser 0.214 with the feature set written down from the documentation. \
          non-trivial = inputs walrus accepts (distinct valid modules in the neighbourhood)",
         sp.seeds.len(),
         sp.nsub,
